@@ -8,7 +8,7 @@ use crate::hist::cfg_small;
 use proptest::prelude::*;
 use serde::{Deserialize, Serialize};
 
-pub const SHAPES: [&str; 10] = ["monotone_up", "monotone_down", "alternating", "flat", "random", "rising_staircase", "falling_staircase", "support_touches", "resistance_touches", "tick_grid_walk"];
+pub const SHAPES: [&str; 12] = ["monotone_up", "monotone_down", "alternating", "flat", "random", "rising_staircase", "falling_staircase", "support_touches", "resistance_touches", "tick_grid_walk", "zero_volume_moving", "periodic_outliers"];
 
 #[derive(Clone, Debug, Serialize, Deserialize)]
 pub struct Case {
@@ -43,10 +43,22 @@ fn gen_inputs(c: &Case) -> Vec<RawBar> {
             7 => if i % 3 == 0 { 50.0 } else { 60.0 + (i % 1000) as f64 * 0.01 + u },
             8 => if i % 3 == 0 { 500.0 } else { 400.0 - (i % 1000) as f64 * 0.01 - u },
             // few distinct tick values
-            _ => 100.0 + ((u * 9.0) as usize) as f64 * 0.05,
+            9 => 100.0 + ((u * 9.0) as usize) as f64 * 0.05,
+            // quotes that keep moving while the volume is exactly 0.0 (no volume data / halted instrument)
+            10 => 50.0 + 40.0 * u,
+            // an enormous tick exactly every `period` inputs, ordinary values between
+            _ => {
+                let n = c.cfg.p.iter().copied().max().unwrap_or(1).max(1);
+                if i % n == 0 {
+                    1e15
+                } else {
+                    100.0 + u
+                }
+            }
         };
         let sp = if c.shape == 3 || c.shape >= 5 { 0.0 } else { 0.01 * x * unit(&mut st) };
-        out.push(RawBar { o: x, h: x + sp, l: x - sp, c: x + sp * (unit(&mut st) - 0.5), v: 1.0 + (1000.0 * unit(&mut st)).round() });
+        let vol = if c.shape == 10 { 0.0 } else { 1.0 + (1000.0 * unit(&mut st)).round() };
+        out.push(RawBar { o: x, h: x + sp, l: x - sp, c: x + sp * (unit(&mut st) - 0.5), v: vol });
     }
     out
 }
@@ -150,7 +162,7 @@ pub fn check(c: &Case, ctx: &mut Ctx) -> Result<(), Failure> {
 const PERIODS: [usize; 8] = [1, 2, 3, 5, 14, 64, 200, 512];
 
 fn strategy(maxlen: usize) -> BoxedStrategy<Case> {
-    (any_kind().prop_flat_map(|k| cfg_for(k, 512, multiplier_any())), prop_oneof![2 => Just(0usize), 2 => Just(1usize), 1 => Just(2usize), 1 => Just(3usize), 1 => Just(4usize), 1 => Just(5usize), 1 => Just(6usize), 1 => Just(7usize), 1 => Just(8usize), 1 => Just(9usize)], (maxlen / 10)..=maxlen, any::<u64>(), any::<bool>())
+    (any_kind().prop_flat_map(|k| cfg_for(k, 512, multiplier_any())), prop_oneof![2 => Just(0usize), 2 => Just(1usize), 1 => Just(2usize), 1 => Just(3usize), 1 => Just(4usize), 1 => Just(5usize), 1 => Just(6usize), 1 => Just(7usize), 1 => Just(8usize), 1 => Just(9usize), 1 => Just(10usize), 1 => Just(11usize)], (maxlen / 10)..=maxlen, any::<u64>(), any::<bool>())
         .prop_map(|(cfg, shape, len, seed, scalar)| {
             let n = cfg.p.iter().copied().max().unwrap_or(1);
             let heavy = matches!(cfg.kind, Kind::Mad | Kind::Cci | Kind::Er) && n > 32;
@@ -161,7 +173,7 @@ fn strategy(maxlen: usize) -> BoxedStrategy<Case> {
 }
 
 pub fn run(g: &mut Global) {
-    g.rule = "grid: all 22 indicators x periods {1,2,3,5,14,64,200,512} x 10 stream shapes (monotone up, monotone down, alternating, flat, random, rising and falling staircases with exact ties, repeated touches of an exact floor / ceiling, tick-grid walk) x scalar/bar path, streams of 1e4 (quick) / 2e5 (thorough) inputs; random: proptest (kind, periods from the mixture to 512, shape, length, seed). Oracle: (i) bincode::serialized_size <= 256 + 64*(sum of periods) at every one of the first 4n+50 inputs and at geometrically spaced checkpoints afterwards; (ii) counting #[global_allocator] with per-thread live-byte counters: after a warm-up of 2n+10 inputs, the net growth (and the sampled peak) of live heap bytes while feeding the rest stays <= the same bound; the number of allocation calls during that phase is reported. Non-trivial = stream at least 20 periods long; sub-class monotone shapes (worst case for a retained history / monotonic deque); distinct by (kind, parameters, shape, length, seed, path).".into();
+    g.rule = "grid: all 22 indicators x periods {1,2,3,5,14,64,200,512} x 12 stream shapes (zero-volume moving quotes, an enormous tick every `period` inputs, monotone up, monotone down, alternating, flat, random, rising and falling staircases with exact ties, repeated touches of an exact floor / ceiling, tick-grid walk) x scalar/bar path, streams of 1e4 (quick) / 2e5 (thorough) inputs; random: proptest (kind, periods from the mixture to 512, shape, length, seed). Oracle: (i) bincode::serialized_size <= 256 + 64*(sum of periods) at every one of the first 4n+50 inputs and at geometrically spaced checkpoints afterwards; (ii) counting #[global_allocator] with per-thread live-byte counters: after a warm-up of 2n+10 inputs, the net growth (and the sampled peak) of live heap bytes while feeding the rest stays <= the same bound; the number of allocation calls during that phase is reported. Non-trivial = stream at least 20 periods long; sub-class monotone shapes (worst case for a retained history / monotonic deque); distinct by (kind, parameters, shape, length, seed, path).".into();
     g.assumptions = vec![
         "inputs are pre-generated before the measured phase; the feeding loop itself allocates nothing".into(),
         "heap is measured on the thread that feeds the indicator; ta spawns no threads".into(),
@@ -171,12 +183,12 @@ pub fn run(g: &mut Global) {
     let seed = g.seed;
     g.exhaustive(
         "grid",
-        22 * 8 * 10 * 2,
+        22 * 8 * 12 * 2,
         &move |i| {
             let scalar = i % 2 == 0;
             let r = i / 2;
-            let shape = (r % 10) as usize;
-            let r = r / 10;
+            let shape = (r % 12) as usize;
+            let r = r / 12;
             let n = PERIODS[(r % 8) as usize];
             let kind = ALL_KINDS[(r / 8) as usize];
             let heavy = matches!(kind, Kind::Mad | Kind::Cci | Kind::Er) && n > 32;
